@@ -2,7 +2,7 @@
 
    ENGINE part (Model/Engine.v: TaffyView::compute_child_layout, compute_cached_layout, compute_hidden_layout, mark_dirty and
    the mutators), for EVERY container / leaf algorithm `algo` (a resumption over the tree interface):
-     zero clause     C05_hidden_zero, C05_hidden_zero_self, C05_pass_establishes_hidden_zero, C05_fresh_pass_hidden_zero,
+     zero clause     C05_hidden_zero, C05_hidden_zero_self_partial, C05_pass_establishes_hidden_zero, C05_fresh_pass_hidden_zero,
                      C05_mutators_preserve (mutations at nodes without a display:none ancestor),
                      C05_attach_below_hidden_refuted (mutations below a clean display:none node: known finding
                      C01/hidden-region-stale; RElayout histories only, fresh trees are covered by the theorems above),
@@ -47,14 +47,27 @@
                                          children: calculate_children_base_lines (flexbox.rs l.1440) performs child layouts before the
                                          ComputeSize return of l.359 -- a second source of the C01 "ComputeSize scribble" finding
    Interface hypotheses (premises, validated on the implementation by the metamorphic oracle `vh c05 oracle` and -- WF, H1 --
-   by the event trace): WF, H1 (EngineDirty.v), SetsZeroOnHidden, HiddenBlind -- now only for the GRID algorithm. *)
+   by the event trace): WF, H1 (EngineDirty.v), SetsZeroOnHidden, HiddenBlind.
+
+   What this file does NOT give (audit, wave 5c):
+   * the invisibility clause is CONDITIONAL: C05_hidden_blind_engine holds for HiddenBlind algorithms; HiddenBlind is proved for
+     the block resumption and stays a premise for the flex and grid tails (covered by the oracle only).  WF and H1 are proved
+     for the toy algorithms only, never for block_alg (trace-validated);
+   * `block_alg` / `bl_memo` are hand models that NO correspondence runner executes (the runners execute Model/Block.v's in-flow
+     kernel and Model/BlockTree.v); C06_block_resumption_runs_kernel ties the in-flow part of the resumption to that kernel, the
+     measuring queries, the absolute pass (a parameter) and the hidden pass have no such tie;
+   * C05_hidden_zero_self_partial preserves, nothing establishes (see there);
+   * every conclusion of the form `orel ..` also relates None to None (both sides out of fuel / out-of-range child): the
+     computed examples at the end show evaluations that succeed; C01_memo_total shows fuel >= height always suffices. *)
 From Coq Require Import List Bool Arith NArith ZArith QArith.
 From TV Require Import Num.Num Gen.BlockGen Model.Block.
 From TV Require Import Model.FiltersBase Gen.FiltersGen Model.ItemFilters Proofs.ItemFiltersBase Proofs.ItemFiltersHiddenBlock Proofs.ItemFiltersHidden Model.BlockAlg Proofs.BlockAlgBlind.
 From TV Require Import Num.QNum Model.Common Model.Leaf Model.Root Proofs.LeafProofs Proofs.HiddenRoot.
 From TV Require Import Model.Engine Model.EngineToy Proofs.EngineMemo Proofs.EngineDirty Proofs.EngineToyProofs
-  Proofs.EngineHidden Proofs.EngineBlind Proofs.EngineHiddenToy.
+  Proofs.EngineHidden Proofs.EngineBlind Proofs.EngineHiddenToy Proofs.EngineHistory.
 From TV Require Import Model.PlacementBase Gen.PlacementGen Model.Placement Proofs.PlacementBlind.
+From TV Require Model.Scale.
+From TV Require Import Model.EngineRel Model.BlockEngine Model.BlockEngineExample Proofs.BlockEngineBlind.
 Import ListNotations.
 
 (* ---------------------------------------------------------------------------------------------- zero clause *)
@@ -93,8 +106,12 @@ Proof.
 Qed.
 
 (* the display:none node itself: the layout its parent stores on it is zero except `order` (zeroish), provided the
-   algorithms store only such layouts on display:none children (real ones store Layout::with_order(i)) *)
-Theorem C05_hidden_zero_self :
+   algorithms store only such layouts on display:none children (real ones store Layout::with_order(i)).
+   PARTIAL (renamed in the audit, wave 5c): HiddenSelf is only PRESERVED by an evaluation; nothing establishes it after a
+   visible laid-out node is hidden (C05_hidden_self_not_established_by_hiding) -- that would need "a PerformLayout evaluation
+   stores a layout on every display:none child" (true of the real hidden-child loops and of hidden_pass, not a hypothesis here);
+   the implementation-side oracle checks the established form. *)
+Theorem C05_hidden_zero_self_partial :
   forall (S In Out Lay : Type) (mode : In -> RunMode) (in_eqb : In -> In -> bool) (is_none : S -> bool)
          (hidden_out : Out) (zero_lay : Lay) (algo : S -> list S -> In -> Alg In Out Lay) (zeroish : Lay -> Prop),
     zeroish zero_lay -> SetsZeroOnHidden S In Out Lay is_none algo zeroish ->
@@ -343,7 +360,7 @@ Proof.
   - intros a b Ha Hb. unfold hidden_view. rewrite Ha, Hb. reflexivity.
 Qed.
 
-(* ... and SetsZeroOnHidden (premise of C05_hidden_zero_self): the only layouts it stores on a display:none child are
+(* ... and SetsZeroOnHidden (premise of C05_hidden_zero_self_partial): the only layouts it stores on a display:none child are
    `Layout::with_order(order)`, for every absolute-item routine that addresses only the item's own node *)
 Theorem C05_block_algorithm_sets_zero_on_hidden :
   forall (T : Type) (N : Num T) (pre : BStyle T -> BIn T -> BIn T) (abs_child : @AbsChild T),
@@ -399,6 +416,237 @@ Example C05_grid_example :
   grid_placement_run 0 0 FRow [(Hidden, auto_child)].
 Proof. exact hidden_line_invisible. Qed.
 
+
+(* =====================================================================================================================
+   Computed instances of the premises (audit, wave 5c).  The engine theorems above are implications from `memo .. = Some ..`
+   or conclude `orel`, which also relates None to None (both evaluations out of fuel): here the evaluations SUCCEED on trees
+   with several nodes, the hidden subtrees are non-trivial and the two sides really differ. *)
+
+(* C05_hidden_blind_engine / _step / _layouts / _replace: a 7-node tree whose hidden node (child 1) has a 3-node subtree, and
+   the same tree with that node replaced by a bare display:none leaf: hsim, different skeletons, both fresh passes succeed with
+   the same output, the resulting trees differ but are tsim, and every visible node has the same layout in both *)
+Definition xk : sk TS :=
+  SNode TS (0%N, false)
+    [SNode TS (1%N, false) [];
+     SNode TS (2%N, true) [SNode TS (3%N, false) [SNode TS (4%N, false) []]; SNode TS (5%N, false) []];
+     SNode TS (6%N, false) []].
+Definition xk' : sk TS := sk_replace TS xk [1%nat] (SNode TS (9%N, true) []).
+Example C05_hidden_blind_engine_example :
+  hsim TS t_is_none xk xk' /\ xk <> xk' /\
+  exists o t t',
+    h_memo 8 (fresh TS TIn TOut TLay 0%N xk) h_in = Some (o, t) /\
+    h_memo 8 (fresh TS TIn TOut TLay 0%N xk') h_in = Some (o, t') /\
+    o = 7%N /\ t <> t' /\
+    tsim TS TIn TOut TLay t_is_none t t' /\
+    visible TS TIn TOut TLay t_is_none t [2%nat] /\
+    lay_at' t [0%nat] = Some 2%N /\ lay_at' t' [0%nat] = Some 2%N /\
+    lay_at' t [2%nat] = Some 7%N /\ lay_at' t' [2%nat] = Some 7%N /\
+    lay_at' t [1%nat] = Some 1%N /\ lay_at' t' [1%nat] = Some 1%N /\
+    option_map (cache_of TS TIn TOut TLay) (subtree TS TIn TOut TLay t [1%nat]) =
+    option_map (cache_of TS TIn TOut TLay) (subtree TS TIn TOut TLay t' [1%nat]).
+Proof.
+  assert (Hs : hsim TS t_is_none xk xk').
+  { unfold xk'. eapply hsim_replace; [vm_compute; reflexivity|reflexivity|reflexivity]. }
+  split; [exact Hs|]. split; [vm_compute; discriminate|].
+  pose proof (memo_tsim TS TIn TOut TLay t_mode t_in_eqb t_is_none 0%N 0%N tv_algo tv_algo_blind 8 _ _ h_in
+                (tsim_fresh TS TIn TOut TLay t_is_none 0%N xk xk' Hs)) as Ho.
+  fold h_memo in Ho.
+  destruct (h_memo 8 (fresh TS TIn TOut TLay 0%N xk) h_in) as [[o t]|] eqn:E; [|vm_compute in E; discriminate].
+  destruct (h_memo 8 (fresh TS TIn TOut TLay 0%N xk') h_in) as [[o' t']|] eqn:E'; [|vm_compute in E'; discriminate].
+  destruct Ho as [<- Ht]. exists o, t, t'. split; [reflexivity|]. split; [reflexivity|].
+  vm_compute in E. vm_compute in E'. injection E as <- <-. injection E' as <-.
+  split; [reflexivity|]. split; [discriminate|]. split; [exact Ht|].
+  vm_compute. repeat split; reflexivity.
+Qed.
+
+(* C05_mutators_preserve, C05_pass_establishes_hidden_zero, C05_hidden_zero along a history: lay out a 6-node tree; hide the
+   laid-out subtree at child 0 by set_style (its nodes keep their non-zero layouts: HiddenZero is FALSE right after the
+   mutation); J, B, HZc hold; the next pass succeeds and re-establishes HiddenZero (layouts 6 and 4 become 0), the visible
+   sibling keeps its layout; a further pass with another input succeeds; evaluating the hidden node itself hits or hides *)
+Definition yk : sk TS :=
+  SNode TS (0%N, false)
+    [SNode TS (1%N, false) [SNode TS (2%N, false) [SNode TS (3%N, false) []]; SNode TS (4%N, false) []];
+     SNode TS (5%N, false) []].
+Definition y0 := fresh TS TIn TOut TLay 0%N yk.
+Definition y_ops : list (op TS TIn TOut TLay) :=
+  [OLayout _ _ _ _ 8 h_in; OMutate _ _ _ _ [0%nat] (ESetStyle _ _ _ _ (1%N, true))].
+Definition y1 := h_pass y0.
+Definition y2 := mutate TS TIn TOut TLay y1 [0%nat] (ESetStyle _ _ _ _ (1%N, true)).
+Example C05_history_example :
+  HZc TS TIn TOut TLay t_is_none 0%N y1 /\ visible_path TS TIn TOut TLay t_is_none y1 [0%nat] /\
+  edit_kids_ok TS TIn TOut TLay t_is_none 0%N (ESetStyle _ _ _ _ (1%N, true)) /\
+  none_at y2 [0%nat] = Some true /\ lay_at' y2 [0%nat; 0%nat] = Some 6%N /\ lay_at' y2 [0%nat; 0%nat; 0%nat] = Some 4%N /\
+  ~ HiddenZero TS TIn TOut TLay t_is_none 0%N y2 /\
+  J TS TIn TOut TLay t_is_none y2 /\ B TS TIn TOut TLay t_is_none y2 /\ HZc TS TIn TOut TLay t_is_none 0%N y2 /\
+  t_mode h_in = PerformLayout /\
+  exists o y3, h_memo 8 y2 h_in = Some (o, y3) /\ o = 5%N /\
+    HiddenZero TS TIn TOut TLay t_is_none 0%N y3 /\
+    lay_at' y3 [0%nat; 0%nat] = Some 0%N /\ lay_at' y3 [0%nat; 0%nat; 0%nat] = Some 0%N /\ lay_at' y3 [1%nat] = Some 6%N /\
+    (exists o' y4, h_memo 8 y3 (PerformLayout, 6%N) = Some (o', y4) /\ o' = 5%N) /\
+    (exists h, subtree TS TIn TOut TLay y3 [0%nat] = Some h /\ t_is_none (style_of TS TIn TOut TLay h) = true /\
+       h_memo 8 h hidden_child_key = Some (0%N, h) /\
+       exists c', h_memo 8 h (PerformLayout, 77%N) =
+                  Some (0%N, Node TS TIn TOut TLay (style_of _ _ _ _ h) c' 0%N
+                                  (map (hide TS TIn TOut TLay 0%N) (kids_of _ _ _ _ h)))).
+Proof.
+  assert (E1 : exists o, h_memo 8 y0 h_in = Some (o, y1)) by (eexists; vm_compute; reflexivity).
+  destruct E1 as [o1 E1].
+  destruct (pass_establishes_hidden_zero TS TIn TOut TLay t_mode t_in_eqb t_is_none 0%N 0%N tv_algo tv_algo_WF tv_algo_H1
+              8 y0 h_in o1 y1 eq_refl (Cold_J _ _ _ _ _ _ (Cold_fresh _ _ _ _ _ yk)) (Cold_B _ _ _ _ _ _ (Cold_fresh _ _ _ _ _ yk))
+              (Cold_HZc _ _ _ _ _ _ _ (Cold_fresh _ _ _ _ _ yk)) E1) as (_ & _ & _ & HZ1).
+  assert (Hv : visible_path TS TIn TOut TLay t_is_none y1 [0%nat]) by (vm_compute; split; [reflexivity|exact I]).
+  assert (HZ2 : HZc TS TIn TOut TLay t_is_none 0%N y2) by (apply mutate_HZc; [exact HZ1|exact Hv|exact I]).
+  assert (Hinv : Inv TS TIn TOut TLay t_mode t_is_none 0%N tv_algo y2).
+  { change y2 with (run_ops TS TIn TOut TLay t_mode t_in_eqb t_is_none 0%N 0%N tv_algo y0 y_ops).
+    apply (history_inv TS TIn TOut TLay t_mode t_in_eqb t_is_none 0%N 0%N tv_algo t_in_eqb_eq tv_algo_WF tv_algo_H1).
+    - apply Inv_fresh.
+    - cbn. repeat split; reflexivity. }
+  destruct Hinv as (_ & HJ2 & HB2).
+  split; [exact HZ1|]. split; [exact Hv|]. split; [exact I|].
+  split; [vm_compute; reflexivity|]. split; [vm_compute; reflexivity|]. split; [vm_compute; reflexivity|].
+  split.
+  { intros H. assert (Eh : exists h, subtree TS TIn TOut TLay y2 [0%nat] = Some h /\ t_is_none (style_of _ _ _ _ h) = true /\
+                             exists u, subtree TS TIn TOut TLay h [0%nat] = Some u /\ lay_of _ _ _ _ u = 6%N)
+      by (eexists; split; [vm_compute; reflexivity|split; [reflexivity|eexists; split; [vm_compute; reflexivity|reflexivity]]]).
+    destruct Eh as (h & Eh & Hn & u & Eu & Hl).
+    destruct (hidden_zero_at TS TIn TOut TLay t_is_none 0%N [0%nat] y2 h 0%nat [] u H Eh Hn Eu) as [Hz _]. congruence. }
+  split; [exact HJ2|]. split; [exact HB2|]. split; [exact HZ2|]. split; [reflexivity|].
+  destruct (h_memo 8 y2 h_in) as [[o y3]|] eqn:E3; [|vm_compute in E3; discriminate].
+  exists o, y3. split; [reflexivity|].
+  destruct (pass_establishes_hidden_zero TS TIn TOut TLay t_mode t_in_eqb t_is_none 0%N 0%N tv_algo tv_algo_WF tv_algo_H1
+              8 y2 h_in o y3 eq_refl HJ2 HB2 HZ2 E3) as (HZ3 & _).
+  vm_compute in E3. injection E3 as <- <-.
+  split; [reflexivity|]. split; [exact HZ3|].
+  split; [vm_compute; reflexivity|]. split; [vm_compute; reflexivity|]. split; [vm_compute; reflexivity|].
+  split; [eexists; eexists; split; [vm_compute; reflexivity|reflexivity]|].
+  eexists. split; [vm_compute; reflexivity|]. split; [reflexivity|]. split; [vm_compute; reflexivity|].
+  eexists. vm_compute. reflexivity.
+Qed.
+
+(* C05_hidden_zero_self_partial: HiddenSelf of a fresh 7-node tree with two hidden nodes is preserved by a successful pass
+   of an algorithm that stores (zeroish) layouts on its hidden children *)
+Definition zk : sk TS :=
+  SNode TS (0%N, false)
+    [SNode TS (1%N, false) [];
+     SNode TS (2%N, true) [SNode TS (3%N, false) [SNode TS (4%N, false) []]];
+     SNode TS (6%N, false) [SNode TS (7%N, true) []]].
+Definition z_memo := memo TS TIn TOut TLay t_mode t_in_eqb t_is_none 0%N 0%N tz_algo.
+Example C05_hidden_zero_self_example :
+  HiddenSelf TS TIn TOut TLay t_is_none t_zeroish (fresh TS TIn TOut TLay 0%N zk) /\
+  exists o t, z_memo 8 (fresh TS TIn TOut TLay 0%N zk) h_in = Some (o, t) /\ o = 7%N /\
+    HiddenSelf TS TIn TOut TLay t_is_none t_zeroish t /\
+    lay_at' t [0%nat] = Some 2%N /\ lay_at' t [1%nat] = Some 101%N /\ lay_at' t [2%nat] = Some 7%N /\
+    lay_at' t [2%nat; 0%nat] = Some 100%N /\ none_at t [1%nat] = Some true /\ none_at t [2%nat; 0%nat] = Some true.
+Proof.
+  assert (H0 : HiddenSelf TS TIn TOut TLay t_is_none t_zeroish (fresh TS TIn TOut TLay 0%N zk)).
+  { vm_compute. repeat (constructor; [intros _; left; reflexivity|]); repeat constructor; intros _; left; reflexivity. }
+  split; [exact H0|].
+  destruct (z_memo 8 (fresh TS TIn TOut TLay 0%N zk) h_in) as [[o t]|] eqn:E; [|vm_compute in E; discriminate].
+  exists o, t. split; [reflexivity|].
+  pose proof (memo_hidden_self TS TIn TOut TLay t_mode t_in_eqb t_is_none 0%N 0%N tz_algo t_zeroish (or_introl eq_refl)
+                tz_algo_sets_zero 8 _ h_in o t H0 E) as [HS _].
+  vm_compute in E. injection E as <- <-. split; [reflexivity|]. split; [exact HS|].
+  vm_compute. repeat split; reflexivity.
+Qed.
+
+(* ... and HiddenSelf is only PRESERVED (C05_hidden_zero_self_partial), nothing ESTABLISHES it: after a visible, laid-out node
+   is hidden by set_style it keeps its non-zero stored layout (11) until its parent stores a new one -- and SetsZeroOnHidden only
+   constrains the layouts an algorithm stores, it does not oblige it to store one *)
+Definition z1 : ttree :=
+  match z_memo 8 (fresh TS TIn TOut TLay 0%N yk) h_in with Some (_, t) => t | None => fresh TS TIn TOut TLay 0%N yk end.
+Definition z2 : ttree := mutate TS TIn TOut TLay z1 [0%nat] (ESetStyle _ _ _ _ (1%N, true)).
+Example C05_hidden_self_not_established_by_hiding :
+  z_memo 8 (fresh TS TIn TOut TLay 0%N yk) h_in <> None /\
+  none_at z2 [0%nat] = Some true /\ lay_at' z2 [0%nat] = Some 11%N /\ ~ HiddenSelf TS TIn TOut TLay t_is_none t_zeroish z2.
+Proof.
+  split; [vm_compute; discriminate|]. split; [vm_compute; reflexivity|]. split; [vm_compute; reflexivity|].
+  intro H. vm_compute in H. inversion H as [s c l kids Hs Hk]; subst. inversion Hk as [|x r Hx Hr]; subst.
+  inversion Hx as [s' c' l' kids' Hs' Hk']; subst. specialize (Hs' eq_refl). unfold t_zeroish in Hs'.
+  destruct Hs' as [E|E]; [discriminate E|]. vm_compute in E. apply E. reflexivity.
+Qed.
+
+(* the same for the dispatcher the block engine of Model/BlockEngine.v really uses (`bl_algo`: "has children" decides between
+   the block algorithm and the leaf, nodes carry their measure function -- what the C04 / C12 instances are about and what
+   TaffyView does), for any preprocessing and absolute-item routine (Proofs/BlockEngineBlind.v, audit wave 5c) *)
+Theorem C05_bl_engine_hidden_invisible :
+  forall (T : Type) (N : Num T) (pre : BStyle T -> BIn T -> BIn T) (abs_child : @AbsChild T) k k',
+    hsim (BNode T) bn_is_none k k' -> forall f i,
+      bl_plain pre abs_child f k i = bl_plain pre abs_child f k' i /\
+      orel (BNode T) (BIn T) (ChildOut T) (BLayout T) bn_is_none
+           (bl_memo pre abs_child f (bl_fresh k) i) (bl_memo pre abs_child f (bl_fresh k') i).
+Proof. exact bl_engine_hidden_invisible. Qed.
+
+(* computed instance of C05_block_engine_hidden_invisible over XQ: root > [A; B > [C; H (display:none) > [G; A]; G]; E
+   (absolute); F] against the same tree with H replaced by a bare display:none leaf: hsim, both evaluations succeed with the
+   same output (212 x 92), the trees are tsim, and the boxes of all visible nodes coincide *)
+Definition bsel (s : BStyle XQ) : bool :=
+  match Block.r_left (st_padding s) with Len (Fin q) => Qeq_bool q 5 || Qeq_bool q 3 | _ => false end.
+Definition bleaf (s : BStyle XQ) (i : BIn XQ) : ChildOut XQ := leaf_out s (Scale.measure_fixed (qz 30) (qz 10)) i.
+Notation b_algo := (fun s st i => if bsel s then block_alg block_pre abs_child_simple s st i
+                                  else Engine.Ret (BIn XQ) (ChildOut XQ) (BLayout XQ) (bleaf s i)).
+Notation b_memo := (memo (BStyle XQ) (BIn XQ) (ChildOut XQ) (BLayout XQ) bi_mode bin_eqb bs_is_none hidden_child_out zero_blay b_algo).
+Notation b_fresh := (fresh (BStyle XQ) (BIn XQ) (ChildOut XQ) (BLayout XQ) zero_blay).
+Definition sA := fst (sstyle _ ex_A). Definition sC := fst (sstyle _ ex_C). Definition sG := fst (sstyle _ ex_G).
+Definition sB := fst (sstyle _ ex_B). Definition sE := fst (sstyle _ ex_E). Definition sF := fst (sstyle _ ex_F).
+Definition sR := fst (sstyle _ ex_spec).
+Definition sH : BStyle XQ := ex_style Block.DNone true PRelative (Block.mkSize (len 70) (len 70)) auto2 auto2 1 0 9.
+Definition L (s : BStyle XQ) := SNode (BStyle XQ) s [].
+Definition bk : sk (BStyle XQ) := SNode _ sR [L sA; SNode _ sB [L sC; SNode _ sH [L sG; L sA]; L sG]; L sE; L sF].
+Definition bk' : sk (BStyle XQ) := SNode _ sR [L sA; SNode _ sB [L sC; L bare_none_style; L sG]; L sE; L sF].
+Definition bx (t : Engine.tree (BStyle XQ) (BIn XQ) (ChildOut XQ) (BLayout XQ)) :=
+  map (fun l => (bl_x l, bl_y l, s_w (bl_size l), s_h (bl_size l))) (lays (BStyle XQ) (BIn XQ) (ChildOut XQ) (BLayout XQ) t).
+Example C05_block_engine_example :
+  hsim (BStyle XQ) bs_is_none bk bk' /\ bk <> bk' /\
+  exists o t t',
+    b_memo 6 (b_fresh bk) ex_input = Some (o, t) /\ b_memo 6 (b_fresh bk') ex_input = Some (o, t') /\
+    tsim (BStyle XQ) (BIn XQ) (ChildOut XQ) (BLayout XQ) bs_is_none t t' /\
+    bsz_eqb (co_size o) (Block.mkSize (qz 212) (qz 92)) = true /\
+    list_eqb box_eqb (bx t) [box 0 0 0 0; box 6 10 200 24; box 6 40 200 34; box 4 4 52 12; box 0 0 0 0; box 0 0 0 0; box 0 0 0 0;
+                             box 4 16 192 14; box 6 74 30 10; box 6 74 100 12] = true /\
+    list_eqb box_eqb (bx t') [box 0 0 0 0; box 6 10 200 24; box 6 40 200 34; box 4 4 52 12; box 0 0 0 0;
+                              box 4 16 192 14; box 6 74 30 10; box 6 74 100 12] = true.
+Proof.
+  assert (Hs : hsim (BStyle XQ) bs_is_none bk bk').
+  { change bk' with (sk_replace _ bk [1%nat; 1%nat] (L bare_none_style)). eapply hsim_replace; [vm_compute; reflexivity|vm_compute; reflexivity|vm_compute; reflexivity]. }
+  split; [exact Hs|]. split; [vm_compute; discriminate|].
+  pose proof (C05_block_engine_hidden_invisible XQ _ block_pre abs_child_simple bsel bleaf bi_mode bin_eqb hidden_child_out
+              zero_blay bk bk' Hs 6 ex_input) as Ho.
+  cbv zeta in Ho. apply proj2 in Ho.
+  assert (X : match b_memo 6 (b_fresh bk) ex_input, b_memo 6 (b_fresh bk') ex_input with
+              | Some (o, t), Some (_, t') =>
+                  bsz_eqb (co_size o) (Block.mkSize (qz 212) (qz 92)) &&
+                  list_eqb box_eqb (bx t) [box 0 0 0 0; box 6 10 200 24; box 6 40 200 34; box 4 4 52 12; box 0 0 0 0; box 0 0 0 0; box 0 0 0 0;
+                             box 4 16 192 14; box 6 74 30 10; box 6 74 100 12] &&
+                  list_eqb box_eqb (bx t') [box 0 0 0 0; box 6 10 200 24; box 6 40 200 34; box 4 4 52 12; box 0 0 0 0;
+                              box 4 16 192 14; box 6 74 30 10; box 6 74 100 12]
+              | _, _ => false end = true) by (vm_compute; reflexivity).
+  remember (b_memo 6 (b_fresh bk) ex_input) as r eqn:E. remember (b_memo 6 (b_fresh bk') ex_input) as r' eqn:E'.
+  destruct r as [[o t]|]; [|discriminate X]. destruct r' as [[o' t']|]; [|discriminate X].
+  destruct Ho as [<- Ht]. exists o, t, t'. split; [reflexivity|]. split; [reflexivity|]. split; [exact Ht|].
+  apply andb_true_iff in X. destruct X as [X X3]. apply andb_true_iff in X. destruct X as [X1 X2].
+  repeat split; assumption.
+Qed.
+
+(* C05_grid_estimate_ignores_hidden with an Ok run that places items: two in-flow, one absolute, two hidden children whose
+   placement styles differ completely between the two lists *)
+Definition gh_children : list (child_kind * child) :=
+  [(InFlow, mkChild (mkLn (Line 2) Auto) (mkLn (Line 2) (Span 2))); (Hidden, mkChild (mkLn (Line 7) Auto) (mkLn (Line (-6)) (Span 3)));
+   (InFlow, auto_child); (Absolute, auto_child); (Hidden, mkChild (mkLn Auto (Span 4)) (mkLn (Span 4) Auto))].
+Definition gh_children' : list (child_kind * child) :=
+  [(InFlow, mkChild (mkLn (Line 2) Auto) (mkLn (Line 2) (Span 2))); (Hidden, auto_child);
+   (InFlow, auto_child); (Absolute, auto_child); (Hidden, mkChild (mkLn (Line 1) Auto) (mkLn Auto Auto))].
+Example C05_grid_example_ok :
+  Forall2 (same_but Hidden (fun _ _ => True)) gh_children gh_children' /\ gh_children <> gh_children' /\
+  exists o, grid_placement_run 3 2 FRow gh_children = Ok o /\ grid_placement_run 3 2 FRow gh_children' = Ok o /\
+            map p_index (o_items o) = [0; 2]%Z /\ o_cols o = mkTC 0 3 0 /\ o_rows o = mkTC 0 2 0.
+Proof.
+  assert (SB : forall k c c', (k <> Hidden -> c = c') -> same_but Hidden (fun _ _ => True) (k, c) (k, c'))
+    by (intros k c c' A; split; [reflexivity|split; [intros _; exact I|exact A]]).
+  split.
+  { unfold gh_children, gh_children'. repeat (constructor; [apply SB; try reflexivity; intros N; exfalso; apply N; reflexivity|]). constructor. }
+  split; [discriminate|].
+  eexists. split; [vm_compute; reflexivity|]. split; [vm_compute; reflexivity|]. vm_compute. repeat split; reflexivity.
+Qed.
 (* ---------------------------------------------------------------------------------------------- the flex algorithm *)
 From TV Require Import Model.FlexAlgBase Model.FlexAlg Model.EngineLift Model.BlockFlexEngine Model.EngineLayouts.
 From TV Require Import Proofs.FlexAlgStruct Proofs.FlexAlgShape Proofs.FlexAlgIface Proofs.FlexAlgBlind Proofs.BlockFlexEngine
@@ -514,7 +762,7 @@ Proof. exists ns_container, [ns_child 20; ns_child 30], ns_input. exact flex_alg
 
 Print Assumptions C05_hide_all_zero.
 Print Assumptions C05_hidden_zero.
-Print Assumptions C05_hidden_zero_self.
+Print Assumptions C05_hidden_zero_self_partial.
 Print Assumptions C05_pass_establishes_hidden_zero.
 Print Assumptions C05_fresh_pass_hidden_zero.
 Print Assumptions C05_mutators_preserve.
@@ -541,3 +789,4 @@ Print Assumptions C05_blockflex_engine_hidden_invisible.
 Print Assumptions C01_flex_algorithm_satisfies_interface.
 Print Assumptions C01_flex_algorithm_NS_partial.
 Print Assumptions C01_flex_algorithm_NS_refuted.
+Print Assumptions C05_bl_engine_hidden_invisible.
